@@ -25,7 +25,7 @@ import (
 //
 // Keys are concrete ("a", "b", "ab": the third extends the first so that prefix listings are exercised), children
 // are concrete ("x" and "a": the second is also a key name), values are nil / empty non-nil / one ARBITRARY byte,
-// tokens are ARBITRARY non-zero 64-bit values. The hash function is degenerate on purpose (see zz16Hash).
+// tokens are ARBITRARY 64-bit values with the top bit set (non-zero; fixed length when the log store marshals them). The hash function is degenerate on purpose (see zz16Hash).
 
 var zz16AllKeys = []string{"a", "b", "ab"}
 var zz16Children = []string{"x", "a"}
@@ -131,7 +131,7 @@ func zz16Step(kv chord.KVProvider, m *zz16Ref, kinds int) {
 		rt.Assert(err == nil, "delete-returns-nil")
 		delete(m.simple, key)
 	case 2:
-		ch := zz16Children[rt.Choose("child", len(zz16Children))]
+		ch := zz16Children[rt.Choose("child", rt.Bound("CHILDREN"))]
 		err := kv.PrefixAppend(ctx, []byte(key), []byte(ch))
 		if m.children[key][ch] {
 			rt.Assert(err == error(chord.ErrKVPrefixConflict), "duplicate-append-is-ErrKVPrefixConflict")
@@ -141,7 +141,7 @@ func zz16Step(kv chord.KVProvider, m *zz16Ref, kinds int) {
 			m.children[key][ch] = true
 		}
 	case 3:
-		ch := zz16Children[rt.Choose("child", len(zz16Children))]
+		ch := zz16Children[rt.Choose("child", rt.Bound("CHILDREN"))]
 		if !m.children[key][ch] {
 			rt.Reach("remove-of-an-absent-child")
 		}
@@ -166,7 +166,7 @@ func zz16Step(kv chord.KVProvider, m *zz16Ref, kinds int) {
 		tok := false
 		if rt.Fork("import-has-token") {
 			tok = true
-			tr.LeaseToken = rt.U64("token") | 1
+			tr.LeaseToken = rt.U64("token") | 1<<63 // top bit set: non-zero, and a fixed varint length in the log store
 		} else if m.lease[key] {
 			rt.Assume(false)
 		}
